@@ -1500,3 +1500,45 @@ func TestD42_RedefineKeepsSubtypes(t *testing.T) {
 		t.Fatalf("with the right subtype: %v %v", p, res.Err())
 	}
 }
+
+// D44 (C06): Redefine builds a function type with one parameter and, when the
+// original has no final error, one result more than the original function.
+// reflect.FuncOf panics beyond 128 parameters and results together, so
+// Redefine panicked for a function with 127 or more results instead of
+// returning an error.
+func TestD44_RedefineWithVeryManyResults(t *testing.T) {
+	for _, n := range []int{126, 127, 128} {
+		var outs []reflect.Type
+		for i := 1; i <= n; i++ {
+			outs = append(outs, reflect.ArrayOf(i, reflect.TypeOf(0)))
+		}
+		fn := reflect.MakeFunc(reflect.FuncOf(nil, outs, false), func([]reflect.Value) []reflect.Value {
+			r := make([]reflect.Value, len(outs))
+			for i, t := range outs {
+				r[i] = reflect.Zero(t)
+			}
+			return r
+		})
+		f, err := argmapper.NewFunc(fn.Interface())
+		if err != nil {
+			t.Fatalf("%d results: NewFunc: %v", n, err)
+		}
+		if res, p := call(f); p != nil || res.Err() != nil || res.Len() != n {
+			t.Fatalf("%d results: call: %v %v", n, p, res.Err())
+		}
+		func() {
+			defer func() {
+				if r := recover(); r != nil {
+					t.Errorf("%d results: Redefine panicked: %v", n, r)
+				}
+			}()
+			rf, err := f.Redefine()
+			if n <= 126 && (err != nil || rf == nil) {
+				t.Errorf("%d results: Redefine: %v", n, err)
+			}
+			if n > 126 && err == nil {
+				t.Errorf("%d results: Redefine returned neither a function that can exist nor an error", n)
+			}
+		}()
+	}
+}
